@@ -93,7 +93,7 @@ Build ==
      IN /\ G' = P
         /\ val' = [v \in P.V |-> InputTok(scn, v)]
         /\ toks' = [j \in DOMAIN scn.inputs |-> [type |-> scn.inputs[j].type, src |-> 0, z |-> FALSE]]
-        /\ IF scn.bad \in {"nilarg", "nonfunc", "nilconv"}      \* args.go:47-57: a nil option / a failing option is an error
+        /\ IF scn.bad \in {"nilarg", "nonfunc", "nilconv"} \/ GenError(scn)   \* args.go: a nil / failing option, a generator error
            THEN outcome' = Outc("bugerr") /\ frames' = <<>> /\ PS' = <<>>
            ELSE IF Redef /\ scn.filterOut = "reject" /\ scn.target.out # <<>>     \* redefineOutputs runs first
            THEN outcome' = Outc("redeferr") /\ frames' = <<>> /\ PS' = <<>>
@@ -268,7 +268,7 @@ ExecTarget ==
   /\ UNCHANGED <<scn, G, val, csv, iset, once, PS>>
 
 \* before the repair of F3 mutual recursion never ended; bounded here so that it is a reachable state
-StackBound == Len(scn.convs) + 2
+StackBound == Cardinality({v \in G.V : v.k = "fn"}) + 2
 Overflow ==
   /\ outcome.kind = "run" /\ Len(frames) > StackBound
   /\ outcome' = Outc("overflow")
@@ -297,7 +297,11 @@ ObsLog == IF IsConvert THEN SelectSeq(log, LAMBDA e : e.fn # 0) ELSE log
 Disp(t) == IF t = 0 THEN 0 ELSE IF toks[t].z THEN (IF toks[t].type \in Ifaces THEN 0 - 1 ELSE 0) ELSE t
 DispSeq(q) == [i \in DOMAIN q |-> Disp(q[i])]
 Observation == [sid |-> scn.sid, kind |-> ObsKind,
-                log |-> [i \in DOMAIN ObsLog |-> [fn |-> ObsLog[i].fn, args |-> DispSeq(ObsLog[i].args), outs |-> DispSeq(ObsLog[i].outs)]],
+                \* generated converters are named by their labels (their numbering follows map iteration in the real code)
+                log |-> [i \in DOMAIN ObsLog |-> [fn |-> IF ObsLog[i].fn > Len(scn.convs)
+                                                          THEN <<"g", ObsLog[i].fin[1].name, ObsLog[i].fin[1].type, ObsLog[i].fin[1].sub, ObsLog[i].fout[1].type>>
+                                                          ELSE ObsLog[i].fn,
+                                                   args |-> DispSeq(ObsLog[i].args), outs |-> DispSeq(ObsLog[i].outs)]],
                 inputs |-> SetToSeq({[name |-> x.name, type |-> x.type, sub |-> x.sub] : x \in outcome.inputs}),
                 valtok |-> IF IsConvert /\ outcome.kind = "ok" THEN Disp(log[Len(log)].args[1]) ELSE 0]
 =============================================================================
